@@ -4,7 +4,8 @@ import json, os, random, subprocess
 import vlib
 from vlib import Undecided
 
-CONCRETE = [ord(c) for c in "abZ7-q"] + [0xE9, 0x171, 0x3B2, 0x2122, 0x6F22, 0x1F600, 0xE000, 0x10FFFF]
+# includes characters whose UTF-8 encodings share a lead byte (é C3A9 / ü C3BC) or a continuation byte (é C3A9 / ũ C5A9)
+CONCRETE = [ord(c) for c in "abZ7-q"] + [0xE9, 0xFC, 0x169, 0x171, 0x3B2, 0x2122, 0x6F22, 0x1F600, 0xE000, 0x10FFFF]
 
 
 def tlc_universe(ctx, nu=3, maxlen=2):
@@ -56,6 +57,11 @@ def run_scenarios(ctx, scenarios, name, shards=None):
         o, e = p.communicate(timeout=3000)
         if p.returncode == 5:
             ctx.partial = "a library call did not return within the per-recipe deadline; the rest of that shard was skipped"
+            try:
+                idx = json.loads([l for l in (o if True else o_).strip().split("\n") if l.startswith("{")][-1]).get("timeout")
+                ctx.partial += " (scenario %s: %s)" % (idx, json.dumps(scenarios[idx])[:400])
+            except Exception:
+                pass
         elif p.returncode != 0:
             raise Undecided("chartree driver failed: " + (e or o)[-1500:])
         last = [l for l in o.strip().split("\n") if l.startswith("{")]
@@ -150,6 +156,8 @@ CUSTOM_VARIANTS = [
     dict(allowChars=[ord(c) for c in "0O1Il5S!"], excludeChars=[ord(c) for c in "ab5!"] + [0xE9]),
     dict(requireSets=[[ord(c) for c in "357"], [ord(c) for c in "7x"]], excludeChars=[ord("3")]),
     dict(allowChars=[0x1F600, 0x1F600, ord("z")], requireSets=[[0x1F600]], excludeChars=[ord("z")]),
+    dict(requireSets=[[ord(c) for c in "abc"], [ord("a")]], allowChars=[ord(c) for c in "abcdef"]),     # nested required sets
+    dict(requireSets=[[ord("7")], [0xE9, 0xFC]], allowChars=[0xFC, 0x169]),                           # shared UTF-8 bytes
 ]
 
 
@@ -171,3 +179,43 @@ def flag_triples(rng, n, exhaustive=False):
     while len(base) < n:
         base.add((rng.randrange(32), rng.randrange(32), rng.randrange(32)))
     return sorted(base)
+
+
+def collision_sequences():
+    """Recipes that differ only where a naive textual cache key cannot tell them apart (a custom set split at a blank or '|', flag bits
+    that overlap when packed), to be run ONE AFTER THE OTHER IN ONE PROCESS, in both orders: any process-wide memo keyed that way
+    makes the second recipe inherit the first one's alphabet / count / probability."""
+    def c(**kw):
+        base = dict(len=2, allow=0, require=0, exclude=0, allowChars=[], requireSets=[], excludeChars=[])
+        base.update(kw)
+        return base
+    o = lambda t: [ord(x) for x in t]
+    pairs = [
+        (c(len=2, allowChars=o("ab "), requireSets=[o("a b")]), c(len=2, allowChars=o("ab "), requireSets=[o("a"), o("b")])),
+        (c(len=1, allowChars=o("ab "), requireSets=[o("a b")]), c(len=1, allowChars=o("ab "), requireSets=[o("a"), o("b")])),
+        (c(len=3, allowChars=o("x y"), requireSets=[o("x y")]), c(len=3, allowChars=o("x y"), requireSets=[o("x"), o("y")])),
+        (c(len=2, allowChars=o("a|b"), excludeChars=o("|")), c(len=2, allowChars=o("a"), excludeChars=o("b|"))),
+        (c(len=4, allow=15, require=1), c(len=4, allow=15, exclude=16)),       # 16<<4 == 1<<8
+        (c(len=5, allow=4, require=1), c(len=5, allow=4, exclude=16)),
+        (c(len=700, allow=3, requireSets=[o("q")], allowChars=o("0123456789!@")), c(len=700, allow=3, requireSets=[o("z")], allowChars=o("0123456789.-"))),  # same |alphabet| and length
+    ]
+    seqs = []
+    for a, b in pairs:
+        mk = lambda r, mode: dict(kind="char", char=r, maxTrials=0 if r["len"] > 3 else 2, failRateOne=0 if r["len"] > 3 else 1,
+                                  mode=("paths" if r["len"] > 3 else "tree"), paths=3 if r["len"] <= 64 else 0, maxLeaves=0, tag="collision-pair")
+        seqs.append([mk(a, 0), mk(b, 0), mk(a, 0)])
+        seqs.append([mk(b, 0), mk(a, 0), mk(b, 0)])
+    return seqs
+
+
+def run_sequences(ctx, seqs, name):
+    """Each sequence runs in its own fresh process, in order (process-wide state carries over within a sequence only)."""
+    files, cells, leaves = [], 0, 0
+
+    def one(k):
+        return run_scenarios(ctx, seqs[k], "%s-seq%d" % (name, k), shards=1)
+    for f, c, l in vlib.parallel(one, range(len(seqs)), workers=vlib.NCPU):
+        files += f
+        cells += c
+        leaves += l
+    return files, cells, leaves
